@@ -62,6 +62,8 @@ def step_fp(ctx, kind="euler", assume_resolvable=True, deep=False, only_progress
     rem = tf - cur
     ctx.prove("step used >= min(step floor, remaining time)", ctx.xle(ctx.ite(dtmin <= rem, dtmin, rem), used))
     ctx.prove("step used is positive", ctx.xlt(0.0, used))
+    ctx.prove("step used <= remaining time (the state is never integrated past the end time)", ctx.xle(used, rem))
+    ctx.prove("clock advances by the step the iterator used (up to the end-time clamp)", ctx.any([ctx.xeq(new, cur + used), ctx.xeq(new, tf)]))
     ctx.prove("progress: new time > old time" + ("" if assume_resolvable else " (no resolvability assumption)"), ctx.xlt(cur, new))
     # invariant for the next iteration (when there is one)
     ndtmax = out["self"]._dtmax
@@ -103,7 +105,11 @@ def run(ctx, kind="euler", nmax=3):
         calls["post"].append(t)
         return X, bool(stops[k])
     s.setFunctions(preProcess=lambda: None, postProcess=post)
-    s.setdXdtFunctions(lambda t, X: (calls["f"].append(t), X * 0.0)[1], s.correctdXdtNotImplemented, getdt, s.flattenXNotImplemented, s.unflattenXNotImplemented)
+    used = []
+
+    def correct(dt, x, dxdt):
+        used.append(dt)
+    s.setdXdtFunctions(lambda t, X: (calls["f"].append(t), X * 0.0)[1], correct, getdt, s.flattenXNotImplemented, s.unflattenXNotImplemented)
     s.solve(t0, np.zeros(1), tf)
     ts = calls["post"]
     n = len(ts)
@@ -119,6 +125,9 @@ def run(ctx, kind="euler", nmax=3):
         ctx.prove("step >= min(minDtFrac * duration, remaining time)", ctx.le(ctx.ite(fmin * D <= tf - prev, fmin * D, tf - prev), step_))
         if k < n - 1:
             ctx.prove("no step is taken after a stop request", bool(stops[k]) is False)
+        per = len(used) // n if n else 0
+        if per >= 1 and len(used) == per * n:
+            ctx.prove("the state is advanced by exactly the accepted time difference", ctx.eq(used[per * (k + 1) - 1], step_))
         prev = t
     last_stop = bool(stops[n - 1])
     ctx.prove("run ends at the end time unless the model asked to stop at that step", ctx.any([last_stop, ctx.eq(ts[-1], tf)]))
